@@ -9,6 +9,8 @@ import PtModel.Pad
 import PtModel.EinsumLower
 import PtModel.AdvIndex
 import PtModel.Binop
+import PtModel.Reduce
+import PtModel.Construct
 import PtModel.Spec
 import PtModel.Affine
 import PtModel.Names
@@ -103,7 +105,30 @@ def parseFlag : Sx → Option Bool
   | .atom "#f" => some false
   | _ => none
 
+/-- a numeric literal `(int n)` / `(rat p q)` as a rational -/
+def parseRatLit (x : Sx) : Option Rat := do (Raise.litVal (← SExpr.ofSx x)).toRat?
+
+def parseArrPair : Sx → Option (Arr Val)
+  | .list [s, v] => parseArr s v
+  | _ => none
+
+def showShapeExpr : Option (Shape × SExpr) → String
+  | some (s, e) => s!"{showNats s} {e.toSx.toStr}"
+  | none => "none"
+
 def handleLower : List Sx → Option String
+  | [.atom "full", .atom dt, lit] => do
+    -- (lower full float64 (rat 5 2))
+    match Lower.fullLit dt (← SExpr.ofSx lit) with
+    | some e => some e.toSx.toStr
+    | none => some "none"
+  | [.atom "eye", k] => do some (Lower.eyeExpr (← k.asInt?)).toSx.toStr
+  | [.atom "arange", .atom kind, a, b, c] => do
+    -- (lower arange int|float start stop step) -> shape and expression
+    some (showShapeExpr (Lower.arange (kind == "int") (← parseRatLit a) (← parseRatLit b) (← parseRatLit c)))
+  | [.atom "csr", nrows, ncols, evS, ecS, rsS, bS] => do
+    some (showShapeExpr (Lower.csrMatmul (← nrows.asNat?) (← ncols.asNat?) (← evS.asNats?) (← ecS.asNats?)
+      (← rsS.asNats?) (← bS.asNats?)))
   | [.atom "roll", shift, axis, nd, n] => do
     some (Lower.roll (← shift.asInt?) (← axis.asNat?) (← nd.asNat?) (← n.asNat?)).toSx.toStr
   | [.atom "perm", p] => do some (Lower.perm (← p.asNats?)).toSx.toStr
@@ -115,6 +140,14 @@ def handleLower : List Sx → Option String
     some (Lower.basic (← ix.mapM parseNIdx) (← shape.asNats?)).toSx.toStr
   | [.atom "reshape", o, old, new] => do
     match Lower.reshape (← parseOrder o) (← old.asNats?) (← new.asNats?) with
+    | some e => some e.toSx.toStr
+    | none => some "none"
+  | [.atom "reduce", .atom op, shape, axes] => do
+    -- (lower reduce sum (2 3 4) (0 2)) ; axes `None` = all
+    let ax ← match axes with
+      | .atom "None" => some none
+      | x => x.asNats?.map some
+    match Lower.reduceExpr (← RedOp.ofWire op) (← shape.asNats?) ax with
     | some e => some e.toSx.toStr
     | none => some "none"
   | [.atom "binop", .atom op, o1, o2, .atom res, cast, pow] => do
@@ -193,6 +226,22 @@ def handleSpec : List Sx → Option String
     some (showArr (Spec.concatenate (← axis.asNat?) as .undef))
   | [.atom "basic", .list ix, shp, vals] => do
     some (showArr (Spec.basicIndex (← ix.mapM parseBIdx) (← parseArr shp vals)))
+  | [.atom "full", shape, .atom dt, lit] => do
+    some (showArr (Spec.fullV (← shape.asNats?) dt (← SExpr.ofSx lit)))
+  | [.atom "eye", n, m, k] => do some (showArr (Spec.eyeV (← n.asNat?) (← m.asNat?) (← k.asInt?)))
+  | [.atom "arange", .atom kind, a, b, c] => do
+    some (showArr (Spec.arangeV (kind == "int") (← parseRatLit a) (← parseRatLit b) (← parseRatLit c)))
+  | [.atom "csrdense", nrows, ncols, ev, ec, rs] => do
+    some (showArr (Spec.csrDense (← nrows.asNat?) (← ncols.asNat?) (← parseArrPair ev) (← parseArrPair ec)
+      (← parseArrPair rs)))
+  | [.atom "csr", nrows, ncols, ev, ec, rs, b] => do
+    some (showArr (Spec.csrMatmulV (← nrows.asNat?) (← ncols.asNat?) (← parseArrPair ev) (← parseArrPair ec)
+      (← parseArrPair rs) (← parseArrPair b)))
+  | [.atom "reduce", .atom op, axes, shp, vals] => do
+    let ax ← match axes with
+      | .atom "None" => some none
+      | x => x.asNats?.map some
+    some (showArr (Spec.reduceV (← RedOp.ofWire op) ax (← parseArr shp vals)))
   | [.atom "binop", .atom op, o1, o2, .atom res, cast, pow] => do
     let (a1', v1) ← parseBOpd o1
     let (a2', v2) ← parseBOpd o2
